@@ -1077,6 +1077,10 @@ func (cpu *CPU) irq() {
 // ADC - Add with Carry
 // I'm not sure what I'm doing ;)
 func (cpu *CPU) op_adc() {
+	if cpu.D == 1 {
+		cpu.adcDecimal()
+		return
+	}
 	if cpu.M == 1 {
 		a := uint16(cpu.RAl)
 		d := uint16(cpu.cmdRead())
@@ -1143,6 +1147,74 @@ func (cpu *CPU) op_adc() {
 		cpu.RA = uint16(sum)
 		cpu.setZN16(cpu.RA)
 	}
+}
+
+// decimalOperands fetches the accumulator and the operand for decimal-mode ADC/SBC as
+// (accumulator, data, number of BCD digits): 2 digits when M is set, 4 otherwise.
+func (cpu *CPU) decimalOperands() (a, d uint32, digits int) {
+	if cpu.M == 1 {
+		return uint32(cpu.RAl), uint32(cpu.cmdRead()), 2
+	}
+	return uint32(cpu.RA), uint32(cpu.cmdRead16()), 4
+}
+
+// decimalResult stores a decimal-mode ADC/SBC result: accumulator, N, Z and the binary-style V.
+func (cpu *CPU) decimalResult(a, d, res uint32, digits int) {
+	sign := uint32(8) << uint(4*(digits-1))
+	if (a^d)&sign == 0 && (a^res)&sign != 0 {
+		cpu.V = 1
+	} else {
+		cpu.V = 0
+	}
+	if digits == 2 {
+		cpu.RAl = byte(res)
+		cpu.setZN8(cpu.RAl)
+	} else {
+		cpu.RA = uint16(res)
+		cpu.setZN16(cpu.RA)
+	}
+}
+
+// adcDecimal adds the operand and the carry to the accumulator as packed BCD, one decimal
+// digit at a time, propagating the decimal carry from digit to digit.
+func (cpu *CPU) adcDecimal() {
+	a, d, digits := cpu.decimalOperands()
+	carry := uint32(cpu.C)
+	var res uint32
+	for i := 0; i < digits; i++ {
+		shift := uint(4 * i)
+		n := (a>>shift)&0xF + (d>>shift)&0xF + carry
+		if n > 9 {
+			n += 6
+		}
+		carry = 0
+		if n > 0xF {
+			carry = 1
+		}
+		res |= (n & 0xF) << shift
+	}
+	cpu.C = byte(carry)
+	cpu.decimalResult(a, d, res, digits)
+}
+
+// sbcDecimal subtracts the operand and the borrow (inverted carry) from the accumulator as
+// packed BCD, one decimal digit at a time; carry is set when no borrow is left.
+func (cpu *CPU) sbcDecimal() {
+	a, d, digits := cpu.decimalOperands()
+	borrow := int32(1 - cpu.C)
+	var res uint32
+	for i := 0; i < digits; i++ {
+		shift := uint(4 * i)
+		n := int32((a>>shift)&0xF) - int32((d>>shift)&0xF) - borrow
+		borrow = 0
+		if n < 0 {
+			n += 10
+			borrow = 1
+		}
+		res |= uint32(n&0xF) << shift
+	}
+	cpu.C = byte(1 - borrow)
+	cpu.decimalResult(a, ^d, res, digits)
 }
 
 // AND - Logical AND
@@ -1753,6 +1825,10 @@ func (cpu *CPU) op_rts() {
 // SBC - SuBstract with Carry
 // I'm not sure what I'm doing ;)
 func (cpu *CPU) op_sbc() {
+	if cpu.D == 1 {
+		cpu.sbcDecimal()
+		return
+	}
 	if cpu.M == 1 {
 		a := uint16(cpu.RAl)
 		d := uint16(^cpu.cmdRead())
